@@ -267,11 +267,17 @@ impl<T: Transport> Session<T> {
         let message_id = self.last_message_id.increment();
         let request = O::new(&self.context, build_fn)
             .map(|operation| rpc::Request::new(message_id, operation))?;
+        #[cfg(bgpfu_verif)]
+        verif::sched_point("rpc:before-requests-lock").await;
         #[allow(clippy::significant_drop_in_scrutinee)]
         match self.requests.lock().await.entry(message_id) {
             Entry::Occupied(_) => return Err(Error::MessageIdCollision { message_id }),
             Entry::Vacant(entry) => {
+                #[cfg(bgpfu_verif)]
+                verif::sched_point("rpc:before-send").await;
                 request.send(&mut *self.transport_tx.lock().await).await?;
+                #[cfg(bgpfu_verif)]
+                verif::sched_point("rpc:after-send").await;
                 _ = entry.insert(OutstandingRequest::Pending);
             }
         };
@@ -293,7 +299,11 @@ impl<T: Transport> Session<T> {
         // Try using a background task to read from the transport, and then just check that task
         // and `take()` from requests in a `select!` here.
         loop {
+            #[cfg(bgpfu_verif)]
+            verif::sched_point("recv:before-rx-lock").await;
             let mut rx_guard = rx.lock().await;
+            #[cfg(bgpfu_verif)]
+            verif::sched_point("recv:holding-rx-lock").await;
             tracing::trace!(?requests);
             tracing::debug!("checking for ready response");
             if let Some(partial) = requests
@@ -308,7 +318,11 @@ impl<T: Transport> Session<T> {
                 break reply.into_result();
             };
             tracing::debug!("response to {message_id:?} not yet ready");
+            #[cfg(bgpfu_verif)]
+            verif::sched_point("recv:before-transport-recv").await;
             let reply = rpc::PartialReply::recv(&mut *rx_guard).await?;
+            #[cfg(bgpfu_verif)]
+            verif::sched_point("recv:after-transport-recv").await;
             #[allow(clippy::significant_drop_in_scrutinee)]
             match requests
                 .lock()
@@ -328,6 +342,8 @@ impl<T: Transport> Session<T> {
                     _ = mem::replace(pending, OutstandingRequest::Ready(reply));
                 }
             };
+            #[cfg(bgpfu_verif)]
+            verif::sched_point("recv:before-rx-unlock").await;
             drop(rx_guard);
         }
     }
@@ -347,5 +363,39 @@ impl<T: Transport> Session<T> {
     #[allow(clippy::missing_errors_doc)]
     pub async fn verif_new(transport: T) -> Result<Self, Error> {
         Self::new(transport).await
+    }
+}
+
+/// Verification hook: optional scheduling points inside `rpc()` / `recv()`.
+#[cfg(bgpfu_verif)]
+#[allow(missing_docs, clippy::type_complexity)]
+pub mod verif {
+    use std::{cell::RefCell, future::poll_fn, task::Poll};
+
+    thread_local! {
+        static YIELD_HOOK: RefCell<Option<Box<dyn Fn(&'static str) -> bool>>> = const { RefCell::new(None) };
+    }
+
+    /// Install (or remove) the decision function of the calling thread. When it answers `true` the
+    /// scheduling point returns `Pending` once (after waking itself).
+    pub fn set_yield_hook(hook: Option<Box<dyn Fn(&'static str) -> bool>>) {
+        YIELD_HOOK.with(|h| *h.borrow_mut() = hook);
+    }
+
+    pub(crate) async fn sched_point(label: &'static str) {
+        let yield_now = YIELD_HOOK.with(|h| h.borrow().as_ref().is_some_and(|f| f(label)));
+        if yield_now {
+            let mut yielded = false;
+            poll_fn(|cx| {
+                if yielded {
+                    Poll::Ready(())
+                } else {
+                    yielded = true;
+                    cx.waker().wake_by_ref();
+                    Poll::Pending
+                }
+            })
+            .await;
+        }
     }
 }
